@@ -98,9 +98,8 @@ ActualDegs(c_) ==
 Spell == [lebedev |-> <<"lebedev", "Lebedev", "LEBEDEV">>, spherical |-> <<"spherical", "Spherical", "SPHERICAL">>,
           maxdet |-> <<"maxdet", "MaxDet", "MAXDET">>,
           ahrens_beylkin |-> <<"ahrens_beylkin", "Ahrens_Beylkin", "AHRENS_BEYLKIN">>]
-\* (only the plain constructor taking degrees does so; the routes through sizes / sectors hand the name on as given,
-\* and C09 is not about names: they get the documented lower-case name)
-MethodArg(c_) == IF c_.route = "degrees" THEN Spell[c_.method][1 + c_.spell] ELSE c_.method
+\* (every constructor - plain, from_pruned, from_preset - folds the case before anything else uses the name)
+MethodArg(c_) == Spell[c_.method][1 + c_.spell]
 \* laws of the routes, for every method and every request up to DMax (constant level):
 \* rounding goes up to a tabulated value, is minimal and idempotent, never lowers the band limit
 \* the request asked for, and the size route is the inverse of the degree route on the table
